@@ -39,64 +39,66 @@ Proof. exact complement_verifies. Qed.
 Print Assumptions C17_complement_verifies.
 
 (* ---- handleVirtioRead: every validity gate passes and hdrLen is recomputed correctly ---- *)
-Theorem C17_reaches_split : forall raw nbufs room sp,
+Theorem C17_reaches_split : forall raw nbufs room gseed sp,
   parse_super raw = Some sp -> wf_super sp ->
-  handle_virtio_read raw nbufs room = gso_split (s_pkt sp) (hdr_for sp (get8 raw 0)) nbufs (s_v6 sp).
+  handle_virtio_read raw nbufs room gseed = gso_split (s_pkt sp) (hdr_for sp (get8 raw 0)) nbufs (s_v6 sp) gseed.
 Proof. exact handle_virtio_read_wf. Qed.
 
-Theorem C17_no_panic : forall raw nbufs room sp,
+Theorem C17_no_panic : forall raw nbufs room gseed sp,
   parse_super raw = Some sp -> wf_super sp -> 1 <= nbufs ->
-  exists n e segs, handle_virtio_read raw nbufs room = Done n e segs.
+  exists n e segs, handle_virtio_read raw nbufs room gseed = Done n e segs.
 Proof. exact handle_never_panics_wf. Qed.
 
 (* ---- the segments ---- *)
 Section Result.
-  Variables (raw : list N) (nbufs room : N) (sp : super) (n e : N) (segs : list (list N)).
+  (* [gseed] selects the stale bytes the output buffers hold before the call (Gso.stale): the
+     results below hold whatever they are *)
+  Variables (raw : list N) (nbufs room gseed : N) (sp : super) (n e : N) (segs : list (list N)).
   Hypothesis Hparse : parse_super raw = Some sp.
   Hypothesis Hwf : wf_super sp.
   Hypothesis Hbufs : 1 <= nbufs.
-  Hypothesis Hrun : handle_virtio_read raw nbufs room = Done n e segs.
+  Hypothesis Hrun : handle_virtio_read raw nbufs room gseed = Done n e segs.
 
   (* payload split in order at gsoSize: segment j is header + payload bytes [j*gso, j*gso + min gso rest) *)
   Theorem C17_split_payload : forall j s, nth_error segs j = Some s ->
     c_len sp (N.of_nat j) s = true /\ c_payload sp (N.of_nat j) s = true.
-  Proof. intros j s H. destruct (proj1 (handle_wf_result raw nbufs room sp n e segs Hparse Hwf Hbufs Hrun) j s H); tauto. Qed.
+  Proof. intros j s H. destruct (proj1 (handle_wf_result raw nbufs room gseed sp n e segs Hparse Hwf Hbufs Hrun) j s H); tauto. Qed.
 
   (* IP total / payload length, consecutive IPv4 IDs (mod 2^16) *)
   Theorem C17_split_ip : forall j s, nth_error segs j = Some s ->
     c_ip_len sp s = true /\ c_ip_id sp (N.of_nat j) s = true.
-  Proof. intros j s H. destruct (proj1 (handle_wf_result raw nbufs room sp n e segs Hparse Hwf Hbufs Hrun) j s H); tauto. Qed.
+  Proof. intros j s H. destruct (proj1 (handle_wf_result raw nbufs room gseed sp n e segs Hparse Hwf Hbufs Hrun) j s H); tauto. Qed.
 
   (* TCP: seq_j = seq_0 + j * gsoSize mod 2^32, FIN/PSH cleared on all but the last segment *)
   Theorem C17_split_tcp : forall j s, nth_error segs j = Some s ->
     c_tcp_seq sp (N.of_nat j) s = true /\ c_tcp_flags sp (N.of_nat j) s = true.
-  Proof. intros j s H. destruct (proj1 (handle_wf_result raw nbufs room sp n e segs Hparse Hwf Hbufs Hrun) j s H); tauto. Qed.
+  Proof. intros j s H. destruct (proj1 (handle_wf_result raw nbufs room gseed sp n e segs Hparse Hwf Hbufs Hrun) j s H); tauto. Qed.
 
   (* UDP length = 8 + payload bytes of the segment (short last segment included) *)
   Theorem C17_split_udp_len : forall j s, nth_error segs j = Some s -> c_udp_len sp (N.of_nat j) s = true.
-  Proof. intros j s H. destruct (proj1 (handle_wf_result raw nbufs room sp n e segs Hparse Hwf Hbufs Hrun) j s H); tauto. Qed.
+  Proof. intros j s H. destruct (proj1 (handle_wf_result raw nbufs room gseed sp n e segs Hparse Hwf Hbufs Hrun) j s H); tauto. Qed.
 
   (* all other IP and transport header bytes (addresses, ports, ack, window, options, ...) are the input's *)
   Theorem C17_split_headers_kept : forall j s, nth_error segs j = Some s ->
     c_ip_rest sp s = true /\ c_th_rest sp s = true.
-  Proof. intros j s H. destruct (proj1 (handle_wf_result raw nbufs room sp n e segs Hparse Hwf Hbufs Hrun) j s H); tauto. Qed.
+  Proof. intros j s H. destruct (proj1 (handle_wf_result raw nbufs room gseed sp n e segs Hparse Hwf Hbufs Hrun) j s H); tauto. Qed.
 
   (* IPv4 header checksum and TCP/UDP checksum (pseudo header + segment) verify: sum = 0xffff;
      a UDP checksum field is never 0x0000 *)
   Theorem C17_split_checksums_valid : forall j s, nth_error segs j = Some s ->
     c_ip_csum sp s = true /\ c_transport_csum sp s = true /\ c_udp_csum_nonzero sp s = true.
-  Proof. intros j s H. destruct (proj1 (handle_wf_result raw nbufs room sp n e segs Hparse Hwf Hbufs Hrun) j s H); tauto. Qed.
+  Proof. intros j s H. destruct (proj1 (handle_wf_result raw nbufs room gseed sp n e segs Hparse Hwf Hbufs Hrun) j s H); tauto. Qed.
 
   (* enough buffers: no error, all ceil(|payload| / gsoSize) packets *)
   Theorem C17_all_segments : nseg sp <= nbufs ->
     e = E_none /\ n = nseg sp /\ N.of_nat (length segs) = nseg sp.
-  Proof. exact (proj1 (proj2 (handle_wf_result raw nbufs room sp n e segs Hparse Hwf Hbufs Hrun))). Qed.
+  Proof. exact (proj1 (proj2 (handle_wf_result raw nbufs room gseed sp n e segs Hparse Hwf Hbufs Hrun))). Qed.
 
   (* more segments than buffers: explicit error; nbufs - 1 packets are reported and they (indeed
      all nbufs written buffers, by the clauses above) are valid *)
   Theorem C17_too_many_segments : nbufs < nseg sp ->
     e = E_too_many /\ n = nbufs - 1 /\ N.of_nat (length segs) = nbufs.
-  Proof. exact (proj2 (proj2 (handle_wf_result raw nbufs room sp n e segs Hparse Hwf Hbufs Hrun))). Qed.
+  Proof. exact (proj2 (proj2 (handle_wf_result raw nbufs room gseed sp n e segs Hparse Hwf Hbufs Hrun))). Qed.
 End Result.
 
 (* the per-segment payloads of the specification, concatenated in order, are the payload *)
@@ -113,9 +115,9 @@ Proof. exact seq_product_no_wrap. Qed.
 Print Assumptions C17_seq_product_no_wrap.
 
 (* ---- gso_type NONE with NEEDS_CSUM: the checksum is completed, nothing else changes ---- *)
-Theorem C17_gso_none_checksum_valid : forall raw nbufs room pp,
+Theorem C17_gso_none_checksum_valid : forall raw nbufs room gseed pp,
   parse_partial raw = Some pp -> wf_partial pp -> 10 <= len raw -> len (p_pkt pp) <= room ->
-  exists out, handle_virtio_read raw nbufs room = Done 1 E_none [out] /\ partial_good pp out.
+  exists out, handle_virtio_read raw nbufs room gseed = Done 1 E_none [out] /\ partial_good pp out.
 Proof. exact handle_partial_wf. Qed.
 
 (* ---- former finding F6 and what still does not hold ---- *)
